@@ -85,6 +85,23 @@ ContentC(fk, c) ==
     [] fk \in {"local", "derived"} -> "not-wire-content"
     [] OTHER -> c
 
+(* ------------------------------------------------- digest of a live object *)
+(* The identifying digest (GenHash) is a function of the CURRENT values of the hashed fields of the
+   object it is called on - not of what the object held when it was hashed before, nor of the object
+   it was copied from.  An object's life: H (GenHash is called), M f (field f gets a new value),
+   C (the object is copied by value and the copy lives on), S (Hash := GenHash()), W (serialised and
+   parsed, the parsed object lives on).  st: field -> how often it was changed. *)
+HashedOf(kind) == CASE kind = "header" -> HeaderHashed [] kind = "tx" -> TxHashed [] kind = "gheader" -> GHeaderHashed
+ApplyStep(st, step) == IF step.o = "M" THEN [st EXCEPT ![step.f] = @ + 1] ELSE st
+RECURSIVE StateAfter(_, _, _)
+StateAfter(st, steps, n) == IF n = 0 THEN st ELSE ApplyStep(StateAfter(st, steps, n - 1), steps[n])
+DigestView(kind, st) == [f \in HashedOf(kind) |-> st[f]]
+(* negative control, never the oracle: a digest memoised at the first call *)
+RECURSIVE FirstHash(_, _)
+FirstHash(steps, n) == IF n = 0 THEN 0 ELSE LET p == FirstHash(steps, n - 1) IN
+                       IF p # 0 THEN p ELSE IF steps[n].o \in {"H", "S"} THEN n ELSE 0
+MemoView(kind, st0, steps, n) == LET k == FirstHash(steps, n) IN DigestView(kind, StateAfter(st0, steps, IF k = 0 THEN n ELSE k))
+
 (* ------------------------------------------------------------ cardinality *)
 (* Repeated fields and the limits the node itself enforces when it builds messages: a block packs
    at most txCountPerBlock transactions (service/transaction_pool.go), so its body list, the hash
